@@ -504,10 +504,15 @@ pub fn run_c01(ctx: &Ctx) -> ! {
                 }
             }));
             // ... and one aircraft on a long consistent flight (its track grows with every report)
+            // (no heartbeat inside it: the watchdog does not time this one - on a loaded machine its
+            // 20 000 reports with a growing track take tens of seconds; the dispatcher's overall
+            // ceiling still applies)
             let n_flight = 20_000usize;
+            end_worker(w);
             for (sig, msg) in crate::tracker::long_flight_check(n_flight).into_iter().filter(|f| f.0.starts_with("C01")) {
                 st.fail(Failure { sig, msg, replay: json!({"kind":"long_flight","n":n_flight}) });
             }
+            begin_case(w, &frames[0]);
             st.evaluations += n_flight as u64;
             st.nontrivial_enum += 1;
             st.class("long flight of one aircraft (20 k position reports)");
